@@ -406,3 +406,125 @@ Proof.
     { apply KS. split; auto. unfold removed. rewrite filter_In. intros [_ D]. congruence. }
     unfold keys in Hk. apply in_map_iff in Hk as [kv [<- Hkv]]. exists kv. auto.
 Qed.
+
+(* ---------- Network::new ---------- *)
+Lemma sample_size_ge4 len : (4 <= sample_size len)%nat.
+Proof. unfold sample_size. lia. Qed.
+Lemma grid_size_pos k : (1 <= k)%nat -> grid_size k <> 0%nat.
+Proof.
+  intros K. unfold grid_size. destruct (Nat.sqrt k * Nat.sqrt k =? k)%nat eqn:E; [|discriminate].
+  apply Nat.eqb_eq in E. destruct (Nat.sqrt k); cbn in E; lia.
+Qed.
+Lemma grid_coord_inj g i j : g <> 0%nat -> grid_coord g i = grid_coord g j -> i = j.
+Proof.
+  intros G. unfold grid_coord. intros [= A B]. apply Nat2Z.inj in A, B.
+  rewrite (Nat.div_mod i g G), (Nat.div_mod j g G). congruence.
+Qed.
+
+Lemma initial_nodes_wf len d : WFm d len (initial_nodes len d) /\ length (initial_nodes len d) = sample_size len.
+Proof.
+  unfold initial_nodes. set (s := sample_size len). set (g := grid_size s).
+  assert (G : g <> 0%nat). { apply grid_size_pos. pose proof (sample_size_ge4 len). fold s in H. lia. }
+  split; [split|].
+  - unfold keys. rewrite map_map. cbn [fst]. apply NoDup_map_inj_on; [apply seq_NoDup|].
+    intros a b _ _. apply grid_coord_inj; auto.
+  - apply Forall_map. apply Forall_forall. intros i _. unfold node_ok; cbn. repeat split; auto. lia.
+  - rewrite map_length, seq_length. reflexivity.
+Qed.
+
+Lemma resize_all_wf d cap k l : WFm d cap l -> WFm d k (map (fun kv => (fst kv, resize k (snd kv))) l).
+Proof.
+  intros [ND F]. split.
+  - unfold keys. rewrite map_map. exact ND.
+  - apply Forall_map. eapply Forall_impl; [|exact F]. intros [c v] (A & B & C & D). unfold node_ok; cbn in *.
+    repeat split; auto. rewrite firstn_length. lia.
+Qed.
+
+Lemma network_new_spec cfg data assign rounds n : network_new cfg data assign rounds = Created n ->
+  WF n /\ (4 <= size n)%nat /\ fcap n = node_size cfg /\ dim n = length (it_w (hd (mkI 0 0 0 []) data)).
+Proof.
+  unfold network_new. destruct data as [|x0 rest]; [discriminate|].
+  set (data := x0 :: rest). set (d := length (it_w x0)). set (len := length data).
+  destruct (negb (forallb _ data)); [discriminate|].
+  destruct (len <? sample_size len)%nat; [discriminate|].
+  destruct (negb (zl_eqb _ _)); [discriminate|].
+  destruct (resolve data assign) as [asg|]; [|discriminate].
+  match goal with |- match ?f with _ => _ end = _ -> _ => destruct f as [l1|] eqn:A; [|discriminate] end.
+  destruct (negb _); [discriminate|].
+  destruct (retrain _ true rounds) as [n2|] eqn:R; [|discriminate].
+  intros [= <-].
+  pose proof (initial_nodes_wf len d) as [W0 L0].
+  assert (P1 : WFm d len l1 /\ length l1 = sample_size len).
+  { revert A. apply (fold_bind_inv _ (fun l => WFm d len l /\ length l = sample_size len)); [|cbn; auto].
+    intros l o l' _ [Wl Ll]. destruct (lookup _ l); [|discriminate]. intros [= <-]. split.
+    - apply WFm_modify; auto. apply keeps_store.
+    - rewrite length_modify. auto. }
+  destruct P1 as [W1 L1].
+  apply retrain_spec in R; [|exact W1]. destruct R as (W2 & (E1 & E2 & _ & E4) & _).
+  cbn [dim fcap nodes with_nodes] in *. unfold size in *; cbn [nodes with_nodes] in *.
+  split; [|split; [|split]].
+  - unfold WF; cbn. apply (resize_all_wf _ (fcap n2)). exact W2.
+  - cbn. rewrite map_length. pose proof (sample_size_ge4 len). lia.
+  - reflexivity.
+  - cbn. exact E1.
+Qed.
+
+(* ---------- histories ---------- *)
+Definition good (n : net) : Prop := WF n /\ (4 <= size n)%nat.
+Lemma step_good n o n' : good n -> step n o = Ok n' -> good n' /\ dim n' = dim n /\ fcap n' = fcap n.
+Proof.
+  intros [W S]. destruct o; cbn [step]; intros H.
+  - apply store_batch_spec in H as (W' & (A & B & _ & D) & _); auto. repeat split; auto; try apply W'. lia.
+  - apply smooth_spec in H as (W' & (A & B & _ & D) & _); auto. repeat split; auto; try apply W'. lia.
+  - apply compact_spec in H as (W' & A & B & [->|(D & _)]); auto; repeat split; auto; apply W'.
+Qed.
+Lemma run_good n ops n' : good n -> run n ops = Ok n' -> good n' /\ dim n' = dim n /\ fcap n' = fcap n.
+Proof.
+  intros G. unfold run. apply (fold_bind_inv _ (fun m => good m /\ dim m = dim n /\ fcap m = fcap n)); auto.
+  intros m o m' _ (Gm & A & B) H. apply step_good in H as (G' & A' & B'); auto. repeat split; try apply G'; congruence.
+Qed.
+
+(* ---------- Rosomaxa phases and elite ---------- *)
+Definition ro_inv (s : rosomaxa) : Prop := (length (ro_elite s) <= r_elite (ro_cfg s))%nat.
+Lemma elite_add_all_cap dd cap l xs : (length l <= cap)%nat -> (length (elite_add_all dd cap l xs) <= cap)%nat.
+Proof. intros H. unfold elite_add_all. destruct xs; auto. rewrite firstn_length. lia. Qed.
+Lemma rstep_forward dd s o s' : rstep dd s o = Ok s' ->
+  (phase_rank (ro_phase s) <= phase_rank (ro_phase s'))%nat /\ ro_cfg s' = ro_cfg s /\ (ro_inv s -> ro_inv s').
+Proof.
+  destruct o as [xs|t er]; cbn [rstep].
+  - intros [= <-]. unfold ro_add_all, ro_inv; cbn. repeat split; auto.
+    + destruct (ro_phase s); cbn; lia.
+    + apply elite_add_all_cap.
+  - unfold ro_on_generation. destruct (ro_phase s) eqn:P.
+    + destruct (er <? t); [intros [= <-]; cbn; repeat split; auto; lia|].
+      destruct (r_initial (ro_cfg s) <=? known)%nat; [|intros [= <-]; rewrite P; cbn; auto].
+      destruct (known <? sample_size known)%nat; [discriminate|]. intros [= <-]; cbn; repeat split; auto; lia.
+    + destruct (t <? er); intros [= <-]; [rewrite P|]; cbn; auto.
+    + intros [= <-]. rewrite P. auto.
+Qed.
+Lemma rrun_forward dd s ops s' : rrun dd s ops = Ok s' ->
+  (phase_rank (ro_phase s) <= phase_rank (ro_phase s'))%nat /\ ro_cfg s' = ro_cfg s /\ (ro_inv s -> ro_inv s').
+Proof.
+  unfold rrun. apply (fold_bind_inv _ (fun m => (phase_rank (ro_phase s) <= phase_rank (ro_phase m))%nat /\ ro_cfg m = ro_cfg s /\ (ro_inv s -> ro_inv m))); auto.
+  intros m o m' _ (A & B & C) H. apply rstep_forward in H as (A' & B' & C'). repeat split; auto; try lia; congruence.
+Qed.
+Lemma rrun_app dd s a b : rrun dd s (a ++ b) = bind (rrun dd s a) (fun m => rrun dd m b).
+Proof.
+  unfold rrun. rewrite fold_left_app. destruct (fold_left _ a (Ok s)); cbn; auto. apply fold_bind_panic.
+Qed.
+
+(* ---------- decidable well-formedness of concrete maps (for witnesses) ---------- *)
+Lemma nodupb_NoDup (l : list coord) : nodupb coord_eqb l = true -> NoDup l.
+Proof.
+  induction l as [|x t IH]; cbn; [constructor|]. rewrite andb_true_iff, negb_true_iff. intros [A B]. constructor; auto.
+  intros H. assert (existsb (coord_eqb x) t = true); [|congruence]. apply existsb_exists. exists x. split; auto. apply coord_eqb_refl.
+Qed.
+Definition node_okb (d cap : nat) (kv : coord * node) : bool :=
+  coord_eqb (n_c (snd kv)) (fst kv) && (n_dim (snd kv) =? d)%nat && (n_cap (snd kv) =? cap)%nat && (length (n_st (snd kv)) <=? cap)%nat.
+Definition wfb (n : net) : bool := nodupb coord_eqb (keys (nodes n)) && forallb (node_okb (dim n) (fcap n)) (nodes n).
+Lemma wfb_WF n : wfb n = true -> WF n.
+Proof.
+  unfold wfb, WF, WFm. rewrite andb_true_iff, forallb_forall, Forall_forall. intros [A B]. split; [apply nodupb_NoDup; auto|].
+  intros kv H. specialize (B kv H). unfold node_okb in B. rewrite !andb_true_iff, coord_eqb_eq, !Nat.eqb_eq, Nat.leb_le in B.
+  unfold node_ok. tauto.
+Qed.
